@@ -35,6 +35,7 @@ macro_rules! dispatch {
             "C09" => driver::$f(scenarios::c09::C09, $($arg),*),
             "C07" => driver::$f(scenarios::c07::C07, $($arg),*),
             "C08" => driver::$f(scenarios::c08::C08, $($arg),*),
+            "C16" => driver::$f(scenarios::c16::C16, $($arg),*),
             other => {
                 eprintln!("HARNESS-ERROR unknown property {other}");
                 2
